@@ -1,7 +1,7 @@
 (* C20 — Middleware is transparent to what it does not change.  Statements only.
    A trace is what an application emitted: status, header list, body events. *)
 From Coq Require Import List NArith Bool Arith.
-From Baize Require Import Lib.Wire C02.Model Resp.Model C20.Model C20.Proofs.
+From Baize Require Import Lib.Wire C02.Model Resp.Model C20.Model C20.Proofs C20.Acts C20.ActsProofs.
 Import ListNotations.
 
 (* Any number of identity middlewares, either interface: same status, same body
@@ -39,7 +39,52 @@ Theorem zero_copy_refuted :
   body_bytes (relay false Identity zero_copy_file) = lit "abc".
 Proof. exact zero_copy_refuted_proof. Qed.
 
+(* ---- failures: an application is the list of actions it performs (C20/Acts.v) ---- *)
+
+(* WSGI, any stack of identity middlewares, EVERY application behaviour that calls
+   start_response without exc_info once, first: items, empty items, replacing the
+   response through exc_info at any point, failing at any point.  A conforming
+   server delivers the same outcome (completed / aborted after the same bytes /
+   failed before anything went out) with the same status, body and — for distinct
+   header names — headers. *)
+Theorem wsgi_failures_transparent : forall (n : nat) (l : list wact),
+  ok_w l = true -> Forall distinct_names (starts_w l) ->
+  serve_w (stack_w (repeat Identity n) l) = match n with O => serve_w l | S _ => lower_outcome (serve_w l) end.
+Proof. exact wsgi_stack_transparent_proof. Qed.
+
+(* the relay before the repair (fixed defect): a response replaced through exc_info
+   after the first item was not honoured / the failure was swallowed *)
+Theorem wsgi_relay_orig_refuted :
+  serve_w late_restart = Aborted 200 [(lit "Content-Type", lit "text/plain")] (lit "part1") /\
+  serve_w (mw_w_orig Identity late_restart) = Completed 200 [(lit "content-type", lit "text/plain")] (lit "part1error page") /\
+  serve_w restart_after_empty_item = Completed 500 [(lit "Content-Type", lit "text/plain")] (lit "error page") /\
+  serve_w (mw_w_orig Identity restart_after_empty_item) = Completed 200 [(lit "content-type", lit "text/plain")] (lit "error page") /\
+  ok_w late_restart = true /\ ok_w restart_after_empty_item = true.
+Proof. exact wsgi_relay_orig_refuted_proof. Qed.
+
+(* ASGI: an application that sends its start, then body events, and does not fail *)
+Theorem asgi_relay_transparent : forall (l : list aact),
+  ok_a l = true -> Forall distinct_names (match l with MStart _ hs :: _ => [hs] | _ => [] end) ->
+  serve_a (mw_a Identity l) = lower_outcome (serve_a l).
+Proof. exact asgi_relay_transparent_proof. Qed.
+
+(* ASGI: wherever the inner application fails, behind a middleware nothing is sent *)
+Theorem asgi_failure_surfaces_early : forall (a : action) (l : list aact),
+  In MRaise l -> serve_a (mw_a a l) = Raised.
+Proof. exact asgi_failure_surfaces_early_proof. Qed.
+
+(* Known finding: so a failure after the response start is not relayed as such. *)
+Theorem asgi_late_failure_refuted :
+  serve_a late_failure_a = Aborted 200 [(lit "content-type", lit "text/plain")] (lit "part1") /\
+  serve_a (mw_a Identity late_failure_a) = Raised.
+Proof. exact asgi_late_failure_refuted_proof. Qed.
+
 Print Assumptions identity_transparent.
 Print Assumptions edit_one_header.
 Print Assumptions duplicate_headers_refuted.
 Print Assumptions zero_copy_refuted.
+Print Assumptions wsgi_failures_transparent.
+Print Assumptions wsgi_relay_orig_refuted.
+Print Assumptions asgi_relay_transparent.
+Print Assumptions asgi_failure_surfaces_early.
+Print Assumptions asgi_late_failure_refuted.
